@@ -11,6 +11,7 @@ import (
 
 	"verif/enum"
 	"verif/ev"
+	"verif/ref"
 )
 
 // C08 — $badfilter disables exactly its twin rules, however many are present.
@@ -51,7 +52,7 @@ func (s srule) ident() string {
 		}
 	}
 	sort.Strings(o)
-	return fmt.Sprintf("%v|%s|%s", s.exc, s.pattern, strings.Join(o, ","))
+	return fmt.Sprintf("%v|%s|%s", s.exc, ref.EffectivePattern(s.pattern), strings.Join(o, ","))
 }
 
 func (s srule) has(prefix string) bool {
@@ -95,6 +96,7 @@ func (s srule) parse() *rules.NetworkRule { return mustNetRule(s.text(), 1) }
 const (
 	c08P1 = "||ads.example.com^"
 	c08P2 = "||ads.example.com/x"
+	c08P3 = "||ads.example.com/*" // documented to mean the same as P1
 )
 
 func c08Pool() (pool []srule) {
@@ -115,6 +117,14 @@ func c08Pool() (pool []srule) {
 	for _, o := range [][]string{{}, {"script"}} {
 		pool = append(pool, srule{false, c08P2, o})
 	}
+	// appended last: positions above are referred to by index below
+	for _, o := range [][]string{{}, {"script"}} {
+		pool = append(pool, srule{false, c08P3, o})
+	}
+	for _, o := range [][]string{{"dnsrewrite"}, {"dnsrewrite=REFUSED"}} {
+		pool = append(pool, srule{false, c08P1, o})
+	}
+	pool = append(pool, srule{true, c08P1, []string{"dnsrewrite"}})
 	return pool
 }
 
@@ -142,6 +152,12 @@ func c08Pair(x *c08Ctx, sx, sy srule) int64 {
 		for _, order := range [][]*rules.NetworkRule{{y, t}, {t, y}} {
 			evals++
 			if y.DNSRewrite != nil {
+				// an exception is effective iff it disables the rewrite it covers
+				var victim *rules.NetworkRule
+				if y.Whitelist {
+					victim = mustNetRule(c08P1+"$dnsrewrite=9.9.9.9", 1)
+					order = append(append([]*rules.NetworkRule{}, order...), victim)
+				}
 				res := &urlfilter.DNSResult{NetworkRules: order}
 				got := res.DNSRewrites()
 				for _, g := range got {
@@ -153,6 +169,14 @@ func c08Pair(x *c08Ctx, sx, sy srule) int64 {
 				for _, g := range got {
 					if g == y {
 						effective = true
+					}
+				}
+				if victim != nil {
+					effective = true
+					for _, g := range got {
+						if g == victim {
+							effective = false
+						}
 					}
 				}
 				if effective == same {
@@ -414,10 +438,12 @@ func c08EngineLayer(x *c08Ctx, c *Ctx) int64 {
 	web := []srule{
 		{false, c08P1, nil}, {false, c08P1, []string{"script"}}, {false, c08P1, []string{"third-party"}}, {false, c08P1, []string{"domain=src.org"}},
 		{false, c08P1, []string{"important"}}, {true, c08P1, nil}, {false, c08P1, []string{"denyallow=x.com"}}, {false, c08P2, nil}, {false, c08P1, []string{"~image"}},
+		{false, c08P3, nil}, {true, "||src.org^", []string{"urlblock"}}, // the latter matches the referrer only
 	}
 	dns := []srule{
 		{false, c08P1, nil}, {false, c08P1, []string{"important"}}, {true, c08P1, nil}, {false, c08P1, []string{"dnstype=A"}}, {false, c08P1, []string{"dnstype=~AAAA"}},
 		{false, c08P1, []string{"ctag=pc"}}, {false, c08P1, []string{"client=10.0.0.1"}}, {false, c08P1, []string{"denyallow=x.com"}}, {false, c08P1, []string{"dnsrewrite=1.2.3.4"}},
+		{false, c08P1, []string{"dnsrewrite"}}, {false, c08P1, []string{"dnsrewrite=REFUSED"}}, {true, c08P1, []string{"dnsrewrite"}}, {false, c08P3, nil},
 	}
 	dnsReq := scenDNSReq()
 	byText := map[string]srule{}
@@ -452,10 +478,10 @@ func c08EngineLayer(x *c08Ctx, c *Ctx) int64 {
 		c.parallel(len(pool), func(i int) {
 			var e int64
 			for j := range pool {
-				if i == j {
+				sx, sy := pool[i], pool[j]
+				if sx.ident() == sy.ident() {
 					continue
 				}
-				sx, sy := pool[i], pool[j]
 				want := verdict([]string{sy.text()})
 				for _, lines := range [][]string{{sy.text(), sx.twin(len(sx.opts)).text()}, {sx.twin(0).text(), sy.text()}} {
 					e++
@@ -478,8 +504,8 @@ func c08EngineLayer(x *c08Ctx, c *Ctx) int64 {
 					enum.Combinations(len(pool), k, func(xs []int) bool {
 						for _, xi := range xs {
 							for _, bi := range b {
-								if xi == bi {
-									return true
+								if pool[xi].ident() == pool[bi].ident() {
+									return true // the twin of an extra would disable a base rule as well
 								}
 							}
 						}
